@@ -231,7 +231,7 @@ PROPS = {
         assumptions=["Blosc compression is deterministic", "cyvcf2 haploid phasing bit (F8) is a don't-care for values, a known finding for bytes"],
     ),
     "C02": dict(
-        units=["GenVczProtocol"],
+        units=["GenVczProtocol", "GenPartitions"],
         props_files=["Props/C02.v"],
         driver="c02",
         rule="generated inputs biased toward Number=R/A/G fields absent or short on the widest records x variants/samples chunk "
